@@ -159,3 +159,34 @@ def vec_random(shapes, count, nops, seed, p_invalid=0.15, max_len=12):
                 lines.append(f"{op} r{r} r{q}"); lens[r] += lens[q]
         out.append(Scenario(sh, lines, "random"))
     return out
+
+
+# ------------------------------------------------------------------ indexing (C04)
+
+KIND_MODES = [("vec", "shared"), ("vec", "mut"), ("slice", "shared"), ("slicemut", "shared"), ("slicemut", "mut")]
+FORMS = ["pos", "range", "rangeto", "rangefrom", "full", "incl", "toincl"]
+
+
+def index_lines(n, accessors=("get", "index"), kind_modes=KIND_MODES):
+    """every index form x every boundary value (pairs for the two-sided forms, inverted and empty
+    ranges included, the exhausted RangeInclusive too) x container kind x shared/mut x get/index"""
+    vals = boundary(n)
+    out = []
+    for acc in accessors:
+        for kind, mode in kind_modes:
+            pre = f"{acc} r0 {kind} {mode}"
+            for a in vals:
+                out.append(f"{pre} pos {a} 0")
+                out.append(f"{pre} rangefrom {a} 0")
+                out.append(f"{pre} rangeto 0 {a}")
+                out.append(f"{pre} toincl 0 {a}")
+                out.append(f"{pre} incl 0 {a} ex")
+                for b in vals:
+                    out.append(f"{pre} range {a} {b}")
+                    out.append(f"{pre} incl {a} {b}")
+            out.append(f"{pre} full 0 0")
+    return out
+
+
+def index_exhaustive(shapes, L):
+    return [Scenario(sh, [setup(n)] + index_lines(n), "index") for sh in shapes for n in range(L + 1)]
